@@ -1,2 +1,1068 @@
-(* Proofs for property C16. *)
-From SC.Model Require Import Base.
+(* Proofs for property C16 (blanks, comments and the letter case of keywords never change a value).
+
+   1. untyped            blanks and comments are lexed into token_infos without a type; Lexer.cleanup and
+                         Post.token_generator drop them: they never reach the token list
+   2. positions          no stage after the lexer reads ti_start / ti_end / ti_text except to build the highlighting
+                         (UI) tokens and the text of a variable token: on two token_info lists that agree pointwise
+                         in type and status (same_tokens) variable substitution, unit recognition and the rule loop
+                         give same_tokens lists again (or the same panic; the UI bookkeeping may panic on its own
+                         with site 1701), and the token list, the parse and the value are EQUAL
+   3. blank / comment    lines of blanks only (any length) evaluate to nothing; lines `blanks # text` for a finite family
+   4. case               every comparison of a keyword class goes through a lower-/upper-cased copy
+   5. pipeline           original vs rewritten lines through the whole model (exec64), by vm_compute *)
+From SC.Model Require Import Base Num Types Config Case Chrono UiTokens Rx Match Post Parser Items Interp RuleFns Rules
+     Format Lexer Api.
+From Coq Require Import ZArith Lia.
+
+(* ------------------------------------------------------------------------------------- *)
+(* 1. untyped token_infos are dropped                                                     *)
+(* ------------------------------------------------------------------------------------- *)
+Section Untyped.
+Context {F : Type} {NF : Num F}.
+
+Definition typed (t : token_info F) : Prop := ti_ty t <> None.
+Definition untyped (t : token_info F) : Prop := ti_ty t = None.
+
+(* Post.token_generator keeps exactly the Active typed infos, in order *)
+Theorem token_generator_in (infos : list (token_info F)) t :
+  In t (token_generator infos) <-> exists ti, In ti infos /\ ti_active ti = true /\ ti_ty ti = Some t.
+Proof.
+  unfold token_generator. rewrite in_flat_map. split.
+  - intros (ti & Hin & Ht). exists ti. split; [exact Hin|].
+    destruct (ti_active ti); [|destruct Ht]. destruct (ti_ty ti) as [t'|]; [|destruct Ht].
+    destruct Ht as [->|[]]. split; reflexivity.
+  - intros (ti & Hin & Ha & Ht). exists ti. split; [exact Hin|]. rewrite Ha, Ht. left. reflexivity.
+Qed.
+
+Lemma token_generator_app (a b : list (token_info F)) :
+  token_generator (a ++ b) = token_generator a ++ token_generator b.
+Proof. unfold token_generator. apply flat_map_app. Qed.
+
+(* an untyped (or Removed) info anywhere in the list contributes nothing *)
+Theorem token_generator_skips (a b : list (token_info F)) ti :
+  ti_ty ti = None \/ ti_active ti = false ->
+  token_generator (a ++ ti :: b) = token_generator (a ++ b).
+Proof.
+  intros H. rewrite !token_generator_app. f_equal.
+  change (ti :: b) with ([ti] ++ b). rewrite token_generator_app.
+  unfold token_generator at 1. cbn [flat_map].
+  destruct H as [H|H]; rewrite H; [destruct (ti_active ti)|]; reflexivity.
+Qed.
+
+Lemma insert_sorted_Forall (P : token_info F -> Prop) t l :
+  P t -> Forall P l -> Forall P (info_insert_sorted t l).
+Proof.
+  intros Pt. induction 1 as [|x r Px Hr IH]; cbn [info_insert_sorted]; [repeat constructor; exact Pt|].
+  destruct (N.ltb _ _); repeat constructor; assumption.
+Qed.
+
+Lemma fold_insert_Forall (P : token_info F -> Prop) l : forall acc,
+  Forall P l -> Forall P acc -> Forall P (fold_left (fun acc t => info_insert_sorted t acc) l acc).
+Proof.
+  induction l as [|t r IH]; intros acc Hl Hacc; cbn [fold_left]; [exact Hacc|].
+  inversion Hl; subst. apply IH; [assumption|]. apply insert_sorted_Forall; assumption.
+Qed.
+
+(* Lexer.cleanup (cleanup_token_infos): only typed infos survive *)
+Theorem cleanup_typed (st : @Rules.tstate F) : Forall typed (ts_infos (cleanup st)).
+Proof.
+  unfold cleanup. cbn [ts_infos]. apply fold_insert_Forall; [|constructor].
+  apply Forall_forall. intros t Hin. apply filter_In in Hin as [_ Hin]. unfold typed.
+  destruct (ti_ty t); [discriminate|discriminate].
+Qed.
+
+(* what the whitespace and the comment parser add carries no type *)
+Definition extends_untyped (st st' : @Rules.tstate F) : Prop :=
+  exists extra, ts_infos st' = ts_infos st ++ extra /\ Forall untyped extra.
+
+Lemma extends_untyped_refl st : extends_untyped st st.
+Proof. exists []. rewrite app_nil_r. split; [reflexivity|constructor]. Qed.
+
+Lemma add_token_None (st : @Rules.tstate F) b e text :
+  extends_untyped st (fst (add_token st b e None text)).
+Proof.
+  unfold add_token. destruct (collides _ _ _); cbn [fst]; [apply extends_untyped_refl|].
+  eexists. cbn [ts_infos]. split; [reflexivity|]. repeat constructor.
+Qed.
+
+Theorem whitespace_body_untyped line c cp (st st' : @Rules.tstate F) :
+  whitespace_body line c cp st = Ok st' -> extends_untyped st st'.
+Proof.
+  unfold whitespace_body. destruct (cap_get cp 0) as [[b e]|]; intros H; inversion H; subst.
+  - apply add_token_None.
+  - apply extends_untyped_refl.
+Qed.
+
+Theorem comment_body_untyped line c cp (st st' : @Rules.tstate F) :
+  comment_body line c cp st = Ok st' -> extends_untyped st st'.
+Proof.
+  unfold comment_body. destruct (cap_get cp 0) as [[b e]|]; intros H; [|inversion H; subst; apply extends_untyped_refl].
+  pose proof (add_token_None st b e (slice line (b, e))) as Hx.
+  destruct (add_token st b e None (slice line (b, e))) as [st1 ok]. cbn [fst] in Hx.
+  inversion H; subst. destruct ok; [|exact Hx].
+  destruct Hx as (extra & He & Hf). exists extra. split; [exact He|exact Hf].
+Qed.
+
+End Untyped.
+
+(* ------------------------------------------------------------------------------------- *)
+(* 2. positions and texts of token_infos are irrelevant after the lexer                   *)
+(* ------------------------------------------------------------------------------------- *)
+Section Positions.
+Context {F : Type} {NF : Num F}.
+
+(* two token_infos that agree in type and status (start, end and text are free) *)
+Definition same_tok (a b : token_info F) : Prop := ti_ty a = ti_ty b /\ ti_active a = ti_active b.
+Definition same_tokens : list (token_info F) -> list (token_info F) -> Prop := Forall2 same_tok.
+Definition same_state (s1 s2 : @Rules.tstate F) : Prop := same_tokens (ts_infos s1) (ts_infos s2).
+Definition fields_sim (f1 f2 : fields F) : Prop :=
+  Forall2 (fun a b => fst a = fst b /\ same_tok (snd a) (snd b)) f1 f2.
+
+Lemma same_tok_refl a : same_tok a a. Proof. split; reflexivity. Qed.
+Lemma same_tokens_refl l : same_tokens l l.
+Proof. induction l; constructor; [apply same_tok_refl|assumption]. Qed.
+Lemma same_tok_sym a b : same_tok a b -> same_tok b a. Proof. intros [H1 H2]; split; congruence. Qed.
+Lemma same_tok_trans a b c : same_tok a b -> same_tok b c -> same_tok a c.
+Proof. intros [H1 H2] [H3 H4]; split; congruence. Qed.
+Lemma same_tokens_sym l1 l2 : same_tokens l1 l2 -> same_tokens l2 l1.
+Proof. induction 1; constructor; [apply same_tok_sym|]; assumption. Qed.
+Lemma same_tokens_trans l1 l2 l3 : same_tokens l1 l2 -> same_tokens l2 l3 -> same_tokens l1 l3.
+Proof.
+  intros H; revert l3; induction H as [|a b r1 r2 Hab Hr IH]; intros l3 H3; inversion H3; subst; constructor.
+  - eapply same_tok_trans; eassumption.
+  - apply IH. assumption.
+Qed.
+
+Lemma same_tokens_length l1 l2 : same_tokens l1 l2 -> length l1 = length l2.
+Proof. induction 1; cbn [List.length]; congruence. Qed.
+
+Lemma Forall2_firstn {A B} (R : A -> B -> Prop) n : forall l1 l2,
+  Forall2 R l1 l2 -> Forall2 R (firstn n l1) (firstn n l2).
+Proof. induction n; intros l1 l2 H; cbn [firstn]; [constructor|]. destruct H; constructor; auto. Qed.
+
+Lemma Forall2_skipn {A B} (R : A -> B -> Prop) n : forall l1 l2,
+  Forall2 R l1 l2 -> Forall2 R (skipn n l1) (skipn n l2).
+Proof. induction n; intros l1 l2 H; cbn [skipn]; [exact H|]. destruct H; [constructor|auto]. Qed.
+
+Definition rel_option {A} (R : A -> A -> Prop) (o1 o2 : option A) : Prop :=
+  match o1, o2 with Some a, Some b => R a b | None, None => True | _, _ => False end.
+
+Lemma nth_opt_sim {A} (R : A -> A -> Prop) l1 l2 : Forall2 R l1 l2 ->
+  forall n, rel_option R (nth_opt l1 n) (nth_opt l2 n).
+Proof.
+  induction 1; intros n; [destruct n; exact I|].
+  destruct n; cbn [nth_opt]; [assumption|apply IHForall2].
+Qed.
+
+(* ---- the comparisons read type and status only ---- *)
+Lemma info_eq_token_sim a b p : same_tok a b -> info_eq_token a p = info_eq_token b p.
+Proof. intros [H _]. unfold info_eq_token. rewrite H. reflexivity. Qed.
+
+Lemma info_eq_sim a b p : same_tok a b -> info_eq a p = info_eq b p.
+Proof. intros [H1 H2]. unfold info_eq. rewrite H1, H2. reflexivity. Qed.
+
+Lemma prefix_match_sim pat : forall t1 t2, same_tokens t1 t2 -> prefix_match t1 pat = prefix_match t2 pat.
+Proof.
+  induction pat as [|p pr IH]; intros t1 t2 H; [destruct t1, t2; reflexivity|].
+  destruct H as [|a b r1 r2 Hab Hr]; cbn [prefix_match]; [reflexivity|].
+  rewrite (info_eq_token_sim a b p Hab), (IH r1 r2 Hr). reflexivity.
+Qed.
+
+Lemma find_location_from_sim pat t1 t2 : same_tokens t1 t2 ->
+  forall start, find_location_from t1 pat start = find_location_from t2 pat start.
+Proof.
+  induction 1 as [|a b r1 r2 Hab Hr IH]; intros start; [reflexivity|].
+  cbn [find_location_from].
+  rewrite (prefix_match_sim pat (a :: r1) (b :: r2)); [|constructor; assumption].
+  destruct (prefix_match _ _); [reflexivity|apply IH].
+Qed.
+
+Lemma find_location_sim pat t1 t2 : same_tokens t1 t2 -> find_location t1 pat = find_location t2 pat.
+Proof.
+  intros H. unfold find_location. destruct pat; [destruct H; reflexivity|].
+  rewrite (find_location_from_sim _ _ _ H). reflexivity.
+Qed.
+
+Lemma pick_variable_sim (vs : vars F) t1 t2 : same_tokens t1 t2 ->
+  forall best, pick_variable vs t1 best = pick_variable vs t2 best.
+Proof.
+  intros H. induction vs as [|[name vi] rest IH]; intros best; [reflexivity|].
+  cbn [pick_variable]. rewrite (find_location_sim _ _ _ H).
+  destruct (find_location t2 (v_tokens vi)); cbn [bind]; [apply IH|reflexivity].
+Qed.
+
+Lemma find_index_sim (p : token_info F -> bool) :
+  (forall a b, same_tok a b -> p a = p b) ->
+  forall l1 l2, same_tokens l1 l2 -> find_index p l1 = find_index p l2.
+Proof.
+  intros Hp l1 l2. induction 1 as [|a b r1 r2 Hab Hr IH]; [reflexivity|].
+  cbn [find_index]. rewrite (Hp a b Hab), IH. reflexivity.
+Qed.
+
+Lemma info_is_eq_op_sim a b : same_tok a b -> info_is_eq_op a = info_is_eq_op b.
+Proof. intros [H _]. unfold info_is_eq_op. rewrite H. reflexivity. Qed.
+
+Lemma info_is_eq_sim a b : same_tok a b -> @info_is_eq F a = info_is_eq b.
+Proof. intros [H _]. unfold info_is_eq. rewrite H. reflexivity. Qed.
+
+(* ---- outcomes: equal up to a panic of the highlighting bookkeeping (ui_token.rs drain, site 1701) ---- *)
+Definition UI_SITE : N := 1701.
+
+Definition rel_exact {A} (R : A -> A -> Prop) (r1 r2 : res A) : Prop :=
+  match r1, r2 with Ok a, Ok b => R a b | Panic s1, Panic s2 => s1 = s2 | _, _ => False end.
+
+Definition rel_res {A} (R : A -> A -> Prop) (r1 r2 : res A) : Prop :=
+  r1 = Panic UI_SITE \/ r2 = Panic UI_SITE \/ rel_exact R r1 r2.
+
+Lemma rel_exact_res {A} (R : A -> A -> Prop) r1 r2 : rel_exact R r1 r2 -> rel_res R r1 r2.
+Proof. intros H. right. right. exact H. Qed.
+
+Lemma rel_bind {A B} (R : A -> A -> Prop) (R' : B -> B -> Prop) r1 r2 f g :
+  rel_res R r1 r2 -> (forall a b, R a b -> rel_res R' (f a) (g b)) -> rel_res R' (bind r1 f) (bind r2 g).
+Proof.
+  intros [->|[->|H]] Hk; [left; reflexivity|right; left; reflexivity|].
+  destruct r1 as [a|s1], r2 as [b|s2]; cbn in H; try contradiction; cbn [bind].
+  - apply Hk, H.
+  - subst. right. right. reflexivity.
+Qed.
+
+Lemma rel_eq_bind {A B} (R' : B -> B -> Prop) (r : res A) f g :
+  (forall a, rel_res R' (f a) (g a)) -> rel_res R' (bind r f) (bind r g).
+Proof. intros Hk. destruct r; cbn [bind]; [apply Hk|right; right; reflexivity]. Qed.
+
+(* ui_update is total up to its own panic site *)
+Definition ui_res {A} (u : res A) : Prop := forall s, u = Panic s -> s = UI_SITE.
+
+Lemma ui_update_res line us a b k : ui_res (ui_update line us a b k).
+Proof.
+  unfold ui_update, ui_res. intros s.
+  destruct (find_index _ us); [|discriminate].
+  destruct (_ >? _); [|discriminate].
+  destruct (find_index _ us); [|discriminate].
+  destruct (Nat.ltb _ _); [|discriminate]. intros H; inversion H; reflexivity.
+Qed.
+
+Lemma rel_ui_bind {A B} (R' : B -> B -> Prop) (u1 u2 : res A) f g :
+  ui_res u1 -> ui_res u2 -> (forall x y, rel_res R' (f x) (g y)) -> rel_res R' (bind u1 f) (bind u2 g).
+Proof.
+  intros H1 H2 Hk. destruct u1 as [x|s1]; [|left; rewrite (H1 s1 eq_refl); reflexivity].
+  destruct u2 as [y|s2]; [|right; left; rewrite (H2 s2 eq_refl); reflexivity].
+  apply Hk.
+Qed.
+
+(* ---- update_token_variables ---- *)
+Lemma subst_loop_sim fuel line1 line2 (vs : vars F) start : forall st1 st2, same_state st1 st2 ->
+  rel_res (rel_option same_state) (subst_loop fuel line1 vs start st1) (subst_loop fuel line2 vs start st2).
+Proof.
+  induction fuel as [|f IH]; intros st1 st2 H; [right; right; exact I|].
+  cbn [subst_loop].
+  rewrite (pick_variable_sim vs _ _ (Forall2_skipn _ start _ _ H) None).
+  apply rel_eq_bind. intros [[[closest name] size]|]; [|right; right; exact H].
+  pose proof (nth_opt_sim _ _ _ H (start + closest)%nat) as Hf.
+  pose proof (nth_opt_sim _ _ _ H (Nat.pred (start + closest + size))) as Hl.
+  destruct (nth_opt (ts_infos st1) (start + closest)) as [f1|], (nth_opt (ts_infos st2) (start + closest)) as [f2|];
+    cbn in Hf; try contradiction; [|right; right; reflexivity].
+  destruct (nth_opt (ts_infos st1) _) as [l1|], (nth_opt (ts_infos st2) _) as [l2|];
+    cbn in Hl; try contradiction; [|right; right; reflexivity].
+  rewrite (same_tokens_length _ _ H).
+  destruct (Nat.ltb _ _); [right; right; reflexivity|].
+  apply rel_ui_bind; [apply ui_update_res|apply ui_update_res|]. intros u1 u2.
+  apply IH. unfold same_state. cbn [ts_infos].
+  apply Forall2_app; [apply Forall2_firstn, H|].
+  constructor; [split; reflexivity|apply Forall2_skipn, H].
+Qed.
+
+Theorem update_token_variables_sim line1 line2 (vs : vars F) st1 st2 : same_state st1 st2 ->
+  rel_res (rel_option same_state) (update_token_variables line1 vs st1) (update_token_variables line2 vs st2).
+Proof.
+  intros H. unfold update_token_variables.
+  assert (Heq : match ts_infos st1 with [] => None | _ :: rest => option_map S (find_index info_is_eq_op rest) end
+                = match ts_infos st2 with [] => None | _ :: rest => option_map S (find_index info_is_eq_op rest) end).
+  { destruct H as [|a b r1 r2 _ Hr]; [reflexivity|].
+    rewrite (find_index_sim _ info_is_eq_op_sim _ _ Hr). reflexivity. }
+  rewrite Heq. clear Heq.
+  rewrite (same_tokens_length _ _ H).
+  destruct (match ts_infos st2 with [] => None | _ :: rest => option_map S (find_index info_is_eq_op rest) end) as [i|].
+  - pose proof (nth_opt_sim _ _ _ H (Nat.pred i)) as Hp.
+    destruct (nth_opt (ts_infos st1) (Nat.pred i)) as [p1|], (nth_opt (ts_infos st2) (Nat.pred i)) as [p2|];
+      cbn in Hp; try contradiction.
+    + cbn [bind]. 
+      destruct (ui_update line1 _ 0 (ti_end p1) _) as [u1|s1] eqn:E1;
+        [|left; cbn [bind]; rewrite (ui_update_res _ _ _ _ _ _ E1); reflexivity].
+      destruct (ui_update line2 _ 0 (ti_end p2) _) as [u2|s2] eqn:E2;
+        [|right; left; cbn [bind]; rewrite (ui_update_res _ _ _ _ _ _ E2); reflexivity].
+      cbn [bind]. apply subst_loop_sim. exact H.
+    + cbn [bind]. apply subst_loop_sim. exact H.
+  - cbn [bind]. apply subst_loop_sim. exact H.
+Qed.
+
+(* ---- find_match ---- *)
+Lemma assoc_sim (fs1 fs2 : fields F) k : fields_sim fs1 fs2 ->
+  rel_option same_tok (assoc k fs1) (assoc k fs2).
+Proof.
+  induction 1 as [|[k1 v1] [k2 v2] r1 r2 [Hk Hv] Hr IH]; [exact I|].
+  cbn [fst snd] in Hk, Hv. subst k2. cbn [assoc]. destruct (str_eqb k k1); [exact Hv|exact IH].
+Qed.
+
+Lemma assoc_insert_sim (fs1 fs2 : fields F) k t1 t2 : same_tok t1 t2 -> fields_sim fs1 fs2 ->
+  fields_sim (assoc_insert k t1 fs1) (assoc_insert k t2 fs2).
+Proof.
+  intros Ht. induction 1 as [|[k1 v1] [k2 v2] r1 r2 [Hk Hv] Hr IH]; cbn [assoc_insert].
+  - constructor; [split; [reflexivity|exact Ht]|constructor].
+  - cbn [fst snd] in Hk, Hv. subst k2.
+    destruct (str_eqb k k1); [constructor; [split; [reflexivity|exact Ht]|exact Hr]|].
+    destruct (str_ltb k k1).
+    + constructor; [split; [reflexivity|exact Ht]|]. constructor; [split; [reflexivity|exact Hv]|exact Hr].
+    + constructor; [split; [reflexivity|exact Hv]|exact IH].
+Qed.
+
+Definition fml_sim (x y : nat * nat * nat * fields F) : Prop :=
+  let '(a, b, c, fs) := x in let '(a', b', c', fs') := y in a = a' /\ b = b' /\ c = c' /\ fields_sim fs fs'.
+
+Lemma find_match_loop_sim (vs : vars F) pat t1 t2 : same_tokens t1 t2 ->
+  forall ri st tg fs1 fs2, fields_sim fs1 fs2 ->
+  rel_exact fml_sim (find_match_loop vs pat t1 ri st tg fs1) (find_match_loop vs pat t2 ri st tg fs2).
+Proof.
+  induction 1 as [|a b r1 r2 Hab Hr IH]; intros ri st tg fs1 fs2 Hfs.
+  - cbn. repeat split; assumption.
+  - cbn [find_match_loop]. destruct Hab as [Hty Hact]. rewrite <- Hact, <- Hty.
+    destruct (negb (ti_active a)); [apply IH, Hfs|].
+    destruct (ti_ty a) as [ty|] eqn:Ety.
+    + destruct (nth_opt pat ri) as [p|]; [|reflexivity].
+      assert (Hinfo : info_eq a p = info_eq b p).
+      { apply info_eq_sim. split; [congruence|exact Hact]. }
+      rewrite <- Hinfo.
+      set (same := match ty with TVariable v => variable_compare vs p (var_value vs v) | _ => info_eq a p end).
+      destruct same.
+      * destruct (get_field_name p) as [n|].
+        -- assert (Hs : fields_sim (assoc_insert n a fs1) (assoc_insert n b fs2)).
+           { apply assoc_insert_sim; [split; [congruence|exact Hact]|exact Hfs]. }
+           destruct (Nat.eqb (length pat) (S ri)); [cbn; repeat split; exact Hs|apply IH, Hs].
+        -- destruct (Nat.eqb (length pat) (S ri)); [cbn; repeat split; exact Hfs|apply IH, Hfs].
+      * destruct (Nat.eqb (length pat) 0); [cbn; repeat split; exact Hfs|apply IH, Hfs].
+    + destruct (Nat.eqb (length pat) ri); [cbn; repeat split; exact Hfs|apply IH, Hfs].
+Qed.
+
+Definition fm_sim (m1 m2 : @fm F) : Prop :=
+  fm_total m1 = fm_total m2 /\ fm_rule_idx m1 = fm_rule_idx m2 /\ fm_start m1 = fm_start m2 /\
+  fm_target m1 = fm_target m2 /\ fields_sim (fm_fields m1) (fm_fields m2).
+
+Lemma find_match_sim (vs : vars F) pat t1 t2 : same_tokens t1 t2 ->
+  rel_exact fm_sim (find_match vs pat t1) (find_match vs pat t2).
+Proof.
+  intros H. unfold find_match.
+  pose proof (find_match_loop_sim vs pat t1 t2 H 0 0 0 [] [] (Forall2_nil _)) as Hl.
+  destruct (find_match_loop vs pat t1 0 0 0 []) as [[[[a1 b1] c1] f1]|s1],
+           (find_match_loop vs pat t2 0 0 0 []) as [[[[a2 b2] c2] f2]|s2]; cbn in Hl; try contradiction; cbn [bind].
+  - destruct Hl as (-> & -> & -> & Hf). cbn. repeat split. exact Hf.
+  - exact Hl.
+Qed.
+
+(* ---- replace_match ---- *)
+Lemma mark_removed_sim from to : forall l1 l2, same_tokens l1 l2 ->
+  forall idx, same_tokens (mark_removed l1 from to idx) (mark_removed l2 from to idx).
+Proof.
+  induction 1 as [|a b r1 r2 [Hty Hact] Hr IH]; intros idx; cbn [mark_removed]; [constructor|].
+  constructor; [|apply IH].
+  destruct (_ && _); [split; [exact Hty|reflexivity]|split; assumption].
+Qed.
+
+Lemma insert_at_sim n : forall (l1 l2 : list (token_info F)) x y, same_tok x y -> same_tokens l1 l2 ->
+  same_tokens (insert_at n x l1) (insert_at n y l2).
+Proof.
+  induction n as [|n IH]; intros l1 l2 x y Hxy H; [cbn [insert_at]; constructor; assumption|].
+  destruct H; cbn [insert_at]; [constructor; [exact Hxy|constructor]|]. constructor; [assumption|apply IH; assumption].
+Qed.
+
+Lemma replace_match_sim l1 l2 (m1 m2 : @fm F) tok : same_tokens l1 l2 -> fm_sim m1 m2 ->
+  rel_exact same_tokens (replace_match l1 m1 tok) (replace_match l2 m2 tok).
+Proof.
+  intros H (_ & _ & Hs & Ht & _). unfold replace_match. rewrite Hs, Ht.
+  pose proof (nth_opt_sim _ _ _ H (fm_start m2)) as Hf.
+  pose proof (nth_opt_sim _ _ _ H (Nat.pred (fm_target m2))) as Hl.
+  destruct (nth_opt l1 (fm_start m2)), (nth_opt l2 (fm_start m2)); cbn in Hf; try contradiction; [|reflexivity].
+  destruct (nth_opt l1 _), (nth_opt l2 _); cbn in Hl; try contradiction; [|reflexivity].
+  destruct (Nat.eqb _ _); [reflexivity|]. cbn.
+  apply insert_at_sim; [split; reflexivity|apply mark_removed_sim, H].
+Qed.
+
+(* ---- the rule functions read the fields through field_token / has / the key list only ---- *)
+Lemma field_token_sim (vs : vars F) k fs1 fs2 : fields_sim fs1 fs2 -> field_token vs k fs1 = field_token vs k fs2.
+Proof.
+  intros H. unfold field_token. pose proof (assoc_sim _ _ k H) as Ha.
+  destruct (assoc k fs1), (assoc k fs2); cbn in Ha; try contradiction; [apply Ha|reflexivity].
+Qed.
+
+Lemma has_sim k fs1 fs2 : fields_sim fs1 fs2 -> @has F k fs1 = has k fs2.
+Proof.
+  intros H. unfold has, assoc_mem. pose proof (assoc_sim _ _ (s k) H) as Ha.
+  destruct (assoc (s k) fs1), (assoc (s k) fs2); cbn in Ha; try contradiction; reflexivity.
+Qed.
+
+Lemma field_tok_sim k fs1 fs2 : fields_sim fs1 fs2 -> field_tok fs1 k = field_tok fs2 k.
+Proof.
+  intros H. unfold field_tok. pose proof (assoc_sim _ _ (s k) H) as Ha.
+  destruct (assoc (s k) fs1), (assoc (s k) fs2); cbn in Ha; try contradiction; [apply Ha|reflexivity].
+Qed.
+
+Section Calls.
+Variable bexec : config F -> str -> res (option F).
+Variable yr : Z.
+
+Lemma get_duration_sim (vs : vars F) k fs1 fs2 : fields_sim fs1 fs2 -> get_duration vs k fs1 = get_duration vs k fs2.
+Proof. intros H. unfold get_duration. rewrite (field_token_sim vs k _ _ H). reflexivity. Qed.
+
+Lemma combine_go_sim (vs : vars F) fs1 fs2 : fields_sim fs1 fs2 -> forall l1 l2, fields_sim l1 l2 -> forall sum,
+  (fix go (l : fields F) (sum : Z) : rret F :=
+     match l with
+     | [] => some (TDuration sum)
+     | (k, _) :: r =>
+       match get_duration vs k fs1 with
+       | None => none
+       | Some d => match try_dur (sum + d) with Some sum' => go r sum' | None => none end
+       end
+     end) l1 sum =
+  (fix go (l : fields F) (sum : Z) : rret F :=
+     match l with
+     | [] => some (TDuration sum)
+     | (k, _) :: r =>
+       match get_duration vs k fs2 with
+       | None => none
+       | Some d => match try_dur (sum + d) with Some sum' => go r sum' | None => none end
+       end
+     end) l2 sum.
+Proof.
+  intros H. induction 1 as [|[k1 v1] [k2 v2] r1 r2 [Hk _] Hr IH]; intros sum; [reflexivity|].
+  cbn [fst] in Hk. subst k2. rewrite (get_duration_sim vs k1 _ _ H).
+  destruct (get_duration vs k1 fs2); [|reflexivity].
+  destruct (try_dur _); [apply IH|reflexivity].
+Qed.
+
+Theorem call_rule_sim cfg lang (vs : vars F) fname fs1 fs2 : fields_sim fs1 fs2 ->
+  call_rule bexec yr cfg lang vs fname fs1 = call_rule bexec yr cfg lang vs fname fs2.
+Proof.
+  intros H. unfold call_rule.
+  repeat match goal with |- (if ?b then _ else _) = _ => destruct b end; try reflexivity.
+  15: { unfold combine_durations. rewrite !(fun k => has_sim k fs1 fs2 H).
+        destruct (_ && _); [|reflexivity]. apply combine_go_sim; exact H. }
+  all: unfold percent_calculator, convert_timezone, time_with_timezone, to_unixtime, from_unixtime, convert_money,
+       number_on, number_of, number_off, division_cleanup, duration_parse, as_duration, to_duration, at_date,
+       find_numbers_percent, find_total_from_percent, number_type_convert, dynamic_type_convert, small_date,
+       get_number_or_time, money_or_number, get_number_or_price, get_number_or_month, get_currency, get_number,
+       get_duration, get_time, get_date, get_date_time, get_text, get_dynamic_type, get_timezone, get_month, get_money,
+       get_percent.
+  all: rewrite ?(fun k => has_sim k fs1 fs2 H), ?(fun k => field_token_sim vs k fs1 fs2 H).
+  all: reflexivity.
+Qed.
+
+Lemma api_call_sim cfg (r : apirule F) fs1 fs2 : fields_sim fs1 fs2 -> api_call cfg r fs1 = api_call cfg r fs2.
+Proof.
+  intros H. unfold api_call. rewrite !(fun k => field_tok_sim k fs1 fs2 H). reflexivity.
+Qed.
+
+Lemma get_number_sim (vs : vars F) k fs1 fs2 : fields_sim fs1 fs2 -> get_number vs k fs1 = get_number vs k fs2.
+Proof. intros H. unfold get_number. rewrite (field_token_sim vs k _ _ H). reflexivity. Qed.
+
+Lemma ui_type_field_res line ui (fs : fields F) : ui_res (ui_type_field line ui fs).
+Proof.
+  unfold ui_type_field. destruct (assoc _ fs); [apply ui_update_res|]. intros s0 E; discriminate.
+Qed.
+
+Lemma api_ui_fields_res line (fs : fields F) : forall ui, ui_res (api_ui_fields line ui fs).
+Proof.
+  induction fs as [|[k t] rest IH]; intros ui s0; cbn [api_ui_fields]; [discriminate|].
+  destruct (ui_update line ui _ _ _) as [ui'|s1] eqn:E; cbn [bind].
+  - apply IH.
+  - intros E'; inversion E'; subst. eapply ui_update_res; exact E.
+Qed.
+
+(* the state after a rule / unit pattern fired *)
+Lemma fire_sim st1 st2 (m1 m2 : @fm F) tok (u1 u2 : res (list uitoken)) :
+  same_state st1 st2 -> fm_sim m1 m2 -> ui_res u1 -> ui_res u2 ->
+  rel_res (rel_option same_state)
+    (do ui' <- u1; do infos' <- replace_match (ts_infos st1) m1 tok; Ok (Some {| ts_infos := infos'; ts_ui := ui' |}))
+    (do ui' <- u2; do infos' <- replace_match (ts_infos st2) m2 tok; Ok (Some {| ts_infos := infos'; ts_ui := ui' |})).
+Proof.
+  intros H Hm Hu1 Hu2. apply rel_ui_bind; [exact Hu1|exact Hu2|]. intros x y.
+  pose proof (replace_match_sim _ _ m1 m2 tok H Hm) as Hr.
+  destruct (replace_match (ts_infos st1) m1 tok), (replace_match (ts_infos st2) m2 tok); cbn in Hr; try contradiction;
+    right; right; cbn; exact Hr.
+Qed.
+
+(* ---- unit recognition ---- *)
+Lemma dyn_try_patterns_sim line1 line2 (vs : vars F) d pats : forall st1 st2, same_state st1 st2 ->
+  rel_res (rel_option same_state) (dyn_try_patterns line1 vs d pats st1) (dyn_try_patterns line2 vs d pats st2).
+Proof.
+  induction pats as [|pat rest IH]; intros st1 st2 H; [right; right; exact I|].
+  cbn [dyn_try_patterns].
+  pose proof (find_match_sim vs pat _ _ H) as Hm.
+  destruct (find_match vs pat (ts_infos st1)) as [m1|s1], (find_match vs pat (ts_infos st2)) as [m2|s2];
+    cbn in Hm; try contradiction; cbn [bind]; [|right; right; exact Hm].
+  pose proof Hm as (Ht & Hri & Hs & Htg & Hf). rewrite Ht, Hri, Hs, Htg.
+  destruct (Nat.eqb _ _); [|apply IH, H].
+  pose proof (nth_opt_sim _ _ _ H (fm_start m2)) as Hn1.
+  pose proof (nth_opt_sim _ _ _ H (Nat.pred (fm_target m2))) as Hn2.
+  destruct (nth_opt (ts_infos st1) (fm_start m2)), (nth_opt (ts_infos st2) (fm_start m2)); cbn in Hn1; try contradiction;
+    [|right; right; reflexivity].
+  destruct (nth_opt (ts_infos st1) _), (nth_opt (ts_infos st2) _); cbn in Hn2; try contradiction;
+    [|right; right; reflexivity].
+  destruct (Nat.eqb _ _); [right; right; reflexivity|].
+  rewrite (get_number_sim vs _ _ _ Hf).
+  destruct (get_number vs _ (fm_fields m2)); [|right; right; reflexivity].
+  apply fire_sim; [exact H|exact Hm|apply ui_type_field_res|apply ui_type_field_res].
+Qed.
+
+Definition sweep_sim (x y : @Rules.tstate F * bool) : Prop := same_state (fst x) (fst y) /\ snd x = snd y.
+
+Lemma dyn_sweep_units_sim line1 line2 (vs : vars F) units : forall st1 st2 fired, same_state st1 st2 ->
+  rel_res sweep_sim (dyn_sweep_units line1 vs units st1 fired) (dyn_sweep_units line2 vs units st2 fired).
+Proof.
+  induction units as [|d rest IH]; intros st1 st2 fired H; [right; right; split; [exact H|reflexivity]|].
+  cbn [dyn_sweep_units].
+  eapply rel_bind; [apply dyn_try_patterns_sim, H|].
+  intros [a|] [b|] Hab; cbn in Hab; try contradiction; [apply IH, Hab|apply IH, H].
+Qed.
+
+Theorem dyn_loop_sim fuel line1 line2 cfg (vs : vars F) : forall st1 st2, same_state st1 st2 ->
+  rel_res (rel_option same_state) (dyn_loop fuel line1 cfg vs st1) (dyn_loop fuel line2 cfg vs st2).
+Proof.
+  induction fuel as [|f IH]; intros st1 st2 H; [right; right; exact I|].
+  cbn [dyn_loop]. eapply rel_bind; [apply dyn_sweep_units_sim, H|].
+  intros [a fa] [b fb] [Hab Hf]; cbn [fst snd] in Hab, Hf. subst fb.
+  destruct fa; [apply IH, Hab|right; right; exact Hab].
+Qed.
+
+(* ---- the rule loop ---- *)
+Lemma rule_try_patterns_sim line1 line2 cfg lang (vs : vars F) r pats : forall st1 st2, same_state st1 st2 ->
+  rel_res (rel_option same_state) (rule_try_patterns bexec yr line1 cfg lang vs r pats st1)
+                                  (rule_try_patterns bexec yr line2 cfg lang vs r pats st2).
+Proof.
+  induction pats as [|pat rest IH]; intros st1 st2 H; [right; right; exact I|].
+  cbn [rule_try_patterns].
+  pose proof (find_match_sim vs pat _ _ H) as Hm.
+  destruct (find_match vs pat (ts_infos st1)) as [m1|s1], (find_match vs pat (ts_infos st2)) as [m2|s2];
+    cbn in Hm; try contradiction; cbn [bind]; [|right; right; exact Hm].
+  pose proof Hm as (Ht & Hri & Hs & Htg & Hf). rewrite Ht, Hri, Hs, Htg.
+  destruct (Nat.eqb _ _); [|apply IH, H].
+  pose proof (nth_opt_sim _ _ _ H (fm_start m2)) as Hn1.
+  pose proof (nth_opt_sim _ _ _ H (Nat.pred (fm_target m2))) as Hn2.
+  destruct r as [fname ps|ps ar].
+  - rewrite (call_rule_sim cfg lang vs fname _ _ Hf).
+    apply rel_eq_bind. intros [tok|]; [|apply IH, H].
+    destruct (nth_opt (ts_infos st1) (fm_start m2)), (nth_opt (ts_infos st2) (fm_start m2)); cbn in Hn1; try contradiction;
+      [|right; right; reflexivity].
+    destruct (nth_opt (ts_infos st1) _), (nth_opt (ts_infos st2) _); cbn in Hn2; try contradiction;
+      [|right; right; reflexivity].
+    apply fire_sim; [exact H|exact Hm|apply ui_type_field_res|apply ui_type_field_res].
+  - rewrite (api_call_sim cfg ar _ _ Hf).
+    destruct (api_call cfg ar (fm_fields m2)) as [tok|]; [|apply IH, H].
+    destruct (nth_opt (ts_infos st1) (fm_start m2)), (nth_opt (ts_infos st2) (fm_start m2)); cbn in Hn1; try contradiction;
+      [|right; right; reflexivity].
+    destruct (nth_opt (ts_infos st1) _), (nth_opt (ts_infos st2) _); cbn in Hn2; try contradiction;
+      [|right; right; reflexivity].
+    apply fire_sim; [exact H|exact Hm|apply api_ui_fields_res|apply api_ui_fields_res].
+Qed.
+
+Lemma rule_sweep_sim line1 line2 cfg lang (vs : vars F) rules : forall st1 st2 fired, same_state st1 st2 ->
+  rel_res sweep_sim (rule_sweep bexec yr line1 cfg lang vs rules st1 fired)
+                    (rule_sweep bexec yr line2 cfg lang vs rules st2 fired).
+Proof.
+  induction rules as [|r rest IH]; intros st1 st2 fired H; [right; right; split; [exact H|reflexivity]|].
+  cbn [rule_sweep].
+  eapply rel_bind; [apply rule_try_patterns_sim, H|].
+  intros [a|] [b|] Hab; cbn in Hab; try contradiction; [apply IH, Hab|apply IH, H].
+Qed.
+
+Lemma rule_loop_sim fuel line1 line2 cfg lang (vs : vars F) rules : forall st1 st2, same_state st1 st2 ->
+  rel_res (rel_option same_state) (rule_loop bexec yr fuel line1 cfg lang vs rules st1)
+                                  (rule_loop bexec yr fuel line2 cfg lang vs rules st2).
+Proof.
+  induction fuel as [|f IH]; intros st1 st2 H; [right; right; exact I|].
+  cbn [rule_loop]. eapply rel_bind; [apply rule_sweep_sim, H|].
+  intros [a fa] [b fb] [Hab Hf]; cbn [fst snd] in Hab, Hf. subst fb.
+  destruct fa; [apply IH, Hab|right; right; exact Hab].
+Qed.
+
+Theorem rule_tokinizer_sim fuel line1 line2 cfg lang (vs : vars F) st1 st2 : same_state st1 st2 ->
+  rel_res (rel_option same_state) (rule_tokinizer bexec yr fuel line1 cfg lang vs st1)
+                                  (rule_tokinizer bexec yr fuel line2 cfg lang vs st2).
+Proof.
+  intros H. unfold rule_tokinizer. destruct (lang_rules cfg lang); [apply rule_loop_sim, H|right; right; exact H].
+Qed.
+
+End Calls.
+
+(* ---- the token list ---- *)
+Lemma token_generator_sim l1 l2 : same_tokens l1 l2 -> token_generator l1 = token_generator l2.
+Proof.
+  induction 1 as [|a b r1 r2 [Hty Hact] Hr IH]; [reflexivity|].
+  unfold token_generator in *. cbn [flat_map]. rewrite Hty, Hact, IH. reflexivity.
+Qed.
+
+Lemma token_cleaner_sim l1 l2 (ts : list (token F)) : same_tokens l1 l2 -> token_cleaner l1 ts = token_cleaner l2 ts.
+Proof.
+  intros H. unfold token_cleaner. rewrite (find_index_sim _ info_is_eq_sim _ _ H). reflexivity.
+Qed.
+
+End Positions.
+
+(* ---- the stages as Api.tokinize / Api.execute_text compose them ---- *)
+Section Composed.
+Context {F : Type} {NF : Num F}.
+Variable lx : lexdata.
+Variable ck : clock.
+
+(* the lexer: month parser, regex parsers, aliases (Lexer.v); everything Api.tokinize does before the variables *)
+Definition lexed (cfg : config F) (lang line : str) : res (@Rules.tstate F) :=
+  do st1 <- language_tokinizer lx cfg lang line empty_state;
+  do st2 <- regex_tokinizer lx (ck_today ck) cfg lang line st1;
+  alias_tokinizer lx (ck_today ck) cfg lang st2.
+
+(* ... and everything it does afterwards *)
+Definition post_lexer (cfg : config F) (lang : str) (vs : vars F) (line : str) (st3 : @Rules.tstate F)
+  : res (@Rules.tstate F * list (token F)) :=
+  do st4 <- unfuel (update_token_variables line vs st3);
+  do st5 <- unfuel (dyn_loop (loop_fuel st4) line cfg vs st4);
+  do st6 <- unfuel (rule_tokinizer (basic_execute lx ck) (ck_year ck) (loop_fuel st5) line cfg lang vs st5);
+  let tokens := token_generator (ts_infos st6) in
+  let tokens := token_cleaner (ts_infos st6) tokens in
+  let tokens := missing_token_adder tokens in
+  Ok (st6, tokens).
+
+Lemma tokinize_split cfg lang vs line :
+  tokinize lx ck cfg lang vs line = bind (lexed cfg lang line) (post_lexer cfg lang vs line).
+Proof.
+  unfold tokinize, lexed, post_lexer.
+  destruct (language_tokinizer lx cfg lang line empty_state) as [st1|]; cbn [bind]; [|reflexivity].
+  destruct (regex_tokinizer lx (ck_today ck) cfg lang line st1) as [st2|]; cbn [bind]; reflexivity.
+Qed.
+
+Lemma unfuel_sim {A} (R : A -> A -> Prop) r1 r2 :
+  rel_res (rel_option R) r1 r2 -> rel_res R (unfuel r1) (unfuel r2).
+Proof.
+  intros [->|[->|H]]; [left; reflexivity|right; left; reflexivity|].
+  destruct r1 as [[a|]|s1], r2 as [[b|]|s2]; cbn in H; try contradiction; right; right; cbn; auto.
+Qed.
+
+Lemma loop_fuel_sim (s1 s2 : @Rules.tstate F) : same_state s1 s2 -> loop_fuel s1 = loop_fuel s2.
+Proof. intros H. unfold loop_fuel. rewrite (same_tokens_length _ _ H). reflexivity. Qed.
+
+Definition tok_sim (x y : @Rules.tstate F * list (token F)) : Prop := same_state (fst x) (fst y) /\ snd x = snd y.
+
+(* after the lexer only the SEQUENCE of typed tokens matters: the line itself is read for highlighting only *)
+Theorem post_lexer_sim cfg lang vs line1 line2 st1 st2 : same_state st1 st2 ->
+  rel_res tok_sim (post_lexer cfg lang vs line1 st1) (post_lexer cfg lang vs line2 st2).
+Proof.
+  intros H. unfold post_lexer.
+  eapply rel_bind; [apply unfuel_sim, update_token_variables_sim, H|]. intros a4 b4 H4.
+  rewrite (loop_fuel_sim _ _ H4).
+  eapply rel_bind; [apply unfuel_sim, dyn_loop_sim, H4|]. intros a5 b5 H5.
+  rewrite (loop_fuel_sim _ _ H5).
+  eapply rel_bind; [apply unfuel_sim, rule_tokinizer_sim, H5|]. intros a6 b6 H6.
+  right. right. split; [exact H6|]. cbn [snd].
+  rewrite (token_generator_sim _ _ H6), (token_cleaner_sim _ _ _ H6). reflexivity.
+Qed.
+
+Theorem tokinize_sim cfg lang vs line1 line2 :
+  rel_res same_state (lexed cfg lang line1) (lexed cfg lang line2) ->
+  rel_res tok_sim (tokinize lx ck cfg lang vs line1) (tokinize lx ck cfg lang vs line2).
+Proof.
+  intros H. rewrite !tokinize_split. eapply rel_bind; [exact H|]. intros a b Hab. apply post_lexer_sim, Hab.
+Qed.
+
+(* what a line evaluates to: value or error message, and the token list; not the highlighting, not the infos *)
+Definition obs_result (o : option (line_obs (F:=F))) : option (line_result (F:=F) * list (token F)) :=
+  option_map (fun o => (lo_result o, lo_tokens o)) o.
+
+Definition exec_sim (x y : option (line_obs (F:=F)) * vars F) : Prop :=
+  obs_result (fst x) = obs_result (fst y) /\ snd x = snd y.
+
+Theorem execute_text_sim cfg lang vs line1 line2 :
+  line1 <> [] -> line2 <> [] ->
+  rel_res same_state (lexed cfg lang line1) (lexed cfg lang line2) ->
+  rel_res exec_sim (execute_text lx ck cfg lang vs line1) (execute_text lx ck cfg lang vs line2).
+Proof.
+  intros N1 N2 H. unfold execute_text.
+  destruct line1 as [|c1 r1]; [congruence|]. destruct line2 as [|c2 r2]; [congruence|].
+  eapply rel_bind; [apply tokinize_sim, H|].
+  intros [st1 tk1] [st2 tk2] [Hs Ht]. cbn [fst snd] in Hs, Ht. subst tk2.
+  destruct Hs as [|a b l1 l2 Hab Hl]; [right; right; split; reflexivity|].
+  destruct (parse tk1 vs) as [[a0|m|] vs1].
+  - apply rel_eq_bind. intros [[v|m] vs2].
+    + apply rel_eq_bind. intros out. right. right. split; reflexivity.
+    + right. right. split; reflexivity.
+  - right. right. split; reflexivity.
+  - right. right. reflexivity.
+Qed.
+
+End Composed.
+
+(* ------------------------------------------------------------------------------------- *)
+(* 4. the comparisons of the keyword classes are case-insensitive                         *)
+(* ------------------------------------------------------------------------------------- *)
+Section CaseCompare.
+Context {F : Type} {NF : Num F}.
+
+(* two spellings of one word: the same lower-case image (what `changing the letter case` means) *)
+Definition same_lower (a a' : str) : Prop := to_lowercase a = to_lowercase a'.
+
+Lemma ci_eqb_same_lower_r x a a' : same_lower a a' -> ci_eqb x a = ci_eqb x a'.
+Proof. intro H. unfold ci_eqb. rewrite H. reflexivity. Qed.
+
+Lemma ci_eqb_same_lower_l x a a' : same_lower a a' -> ci_eqb a x = ci_eqb a' x.
+Proof. intro H. unfold ci_eqb. rewrite H. reflexivity. Qed.
+
+Lemma opt_expected_same_lower e a a' : same_lower a a' -> opt_expected e a = opt_expected e a'.
+Proof. intro H. destruct e; cbn [opt_expected]; [apply ci_eqb_same_lower_r, H|reflexivity]. Qed.
+
+Lemma group_same_lower items a a' : same_lower a a' ->
+  existsb (fun it => ci_eqb it a) items = existsb (fun it => ci_eqb it a') items.
+Proof.
+  intro H. induction items as [|it r IH]; [reflexivity|]. cbn [existsb].
+  rewrite IH, (ci_eqb_same_lower_r it a a' H). reflexivity.
+Qed.
+
+(* TokenType::field_compare on a text token: {TEXT:name:word}, {GROUP:name:group} and the type groups *)
+Theorem field_compare_same_lower a a' f : same_lower a a' ->
+  token_field_compare (TText a : token F) f = token_field_compare (TText a' : token F) f.
+Proof.
+  intro H. destruct f; cbn [token_field_compare]; try reflexivity.
+  - apply opt_expected_same_lower, H.
+  - apply group_same_lower, H.
+Qed.
+
+(* the PartialEq of tokens: a literal word of a rule pattern against a word of the line, either side *)
+Theorem token_match_same_lower_l a a' (r : token F) :
+  same_lower a a' -> token_match (TText a) r = token_match (TText a') r.
+Proof.
+  intro H. destruct r; cbn [token_match]; try reflexivity.
+  - apply ci_eqb_same_lower_l, H.
+  - apply field_compare_same_lower, H.
+Qed.
+
+Theorem token_match_same_lower_r a a' (l : token F) : same_lower a a' -> token_match l (TText a) = token_match l (TText a').
+Proof.
+  intro H. destruct l; cbn [token_match]; try reflexivity.
+  - apply ci_eqb_same_lower_r, H.
+  - apply field_compare_same_lower, H.
+Qed.
+
+(* ... hence the comparison of a line token with ANY rule-pattern token (rule loop, unit recognition) and with the
+   tokens of a variable definition (variable substitution) *)
+Theorem info_eq_same_lower (t t' p : token_info F) a a' : same_lower a a' ->
+  ti_ty t = Some (TText a) -> ti_ty t' = Some (TText a') -> ti_active t = ti_active t' ->
+  info_eq t p = info_eq t' p.
+Proof.
+  intros H E E' Ha. unfold info_eq. rewrite E, E', Ha.
+  destruct (ti_ty p) as [r|]; [|reflexivity]. rewrite (token_match_same_lower_l a a' r H). reflexivity.
+Qed.
+
+Theorem info_eq_token_same_lower (t t' : token_info F) p a a' : same_lower a a' ->
+  ti_ty t = Some (TText a) -> ti_ty t' = Some (TText a') ->
+  info_eq_token t p = info_eq_token t' p.
+Proof.
+  intros H E E'. unfold info_eq_token. rewrite E, E'.
+  rewrite <- (token_match_same_lower_l a a' p H). reflexivity.
+Qed.
+
+(* a variable whose NAME tokens were written in another case is still found (definition side) *)
+Theorem info_eq_token_same_lower_pat (t : token_info F) a a' : same_lower a a' ->
+  info_eq_token t (TText a) = info_eq_token t (TText a').
+Proof.
+  intros H. unfold info_eq_token. destruct (ti_ty t) as [l|]; [|reflexivity].
+  rewrite <- (token_match_same_lower_r a a' l H). destruct l; reflexivity.
+Qed.
+
+(* a variable holding a symbol against a pattern word *)
+Theorem variable_compare_same_lower (vs : vars F) (p : token_info F) a a' : same_lower a a' ->
+  variable_compare vs p (ASymbol a) = variable_compare vs p (ASymbol a').
+Proof.
+  intros H. unfold variable_compare. destruct (ti_ty p) as [[]|]; try reflexivity.
+  - apply ci_eqb_same_lower_r, H.
+  - destruct f; cbn [ast_field_compare]; try reflexivity. apply opt_expected_same_lower, H.
+Qed.
+
+(* currency codes and aliases: tools.rs read_currency lower-cases first *)
+Theorem read_currency_same_lower (cfg : config F) a a' : same_lower a a' -> read_currency cfg a = read_currency cfg a'.
+Proof. intro H. unfold read_currency. rewrite H. reflexivity. Qed.
+
+Theorem get_currency_text_same_lower (cfg : config F) vs k (fs fs' : fields F) a a' : same_lower a a' ->
+  field_token vs k fs = Some (TText a) -> field_token vs k fs' = Some (TText a') ->
+  get_currency cfg vs k fs = get_currency cfg vs k fs'.
+Proof. intros H E E'. unfold get_currency. rewrite E, E'. apply read_currency_same_lower, H. Qed.
+
+(* aliases (times, minus, euro ...): the alias regexes see the lower-cased text of the token *)
+Theorem alias_apply_same_lower (lx : lexdata) today (cfg : config F) aliases (t t' : token_info F) :
+  same_lower (ti_text t) (ti_text t') -> ti_ty t = ti_ty t' -> ti_active t = ti_active t' ->
+  rel_exact same_tok (alias_apply lx today cfg aliases t) (alias_apply lx today cfg aliases t').
+Proof.
+  intros H Ety Ea. induction aliases as [|[c data] r IH]; [cbn; split; assumption|].
+  cbn [alias_apply]. rewrite H.
+  destruct (re_is_match c (to_lowercase (ti_text t'))); [|exact IH].
+  destruct (get_atom today cfg data (atom_regexes lx)) as [atoms|s0]; cbn [bind]; [|reflexivity].
+  destruct atoms as [|[[[? ?] ty] ?] [|]]; [cbn; split; [reflexivity|exact Ea]|cbn; split; [reflexivity|exact Ea]|exact IH].
+Qed.
+
+(* month names: the month parser searches the lower-cased line in front of '#';
+   zone names: the zone parser searches the upper-cased line.  Both read the line itself only for highlighting. *)
+Definition month_body (line data : str) (mi : monthinfo) : @parser_body F := fun c cp st =>
+  match cap_get cp 0 with
+  | None => Ok st
+  | Some (b, e) =>
+    let '(st1, ok) := add_token st b e (Some (TMonth (mi_month mi))) (slice data (b, e)) in
+    Ok (if ok then with_ui st1 (ui_add line (ts_ui st1) b e UMonth) else st1)
+  end.
+
+Definition same_infos (s1 s2 : @Rules.tstate F) : Prop := ts_infos s1 = ts_infos s2.
+
+Lemma month_caps line line' data mi c cps : forall s1 s1', same_infos s1 s1' ->
+  rel_exact same_infos (over_captures (month_body line data mi) c cps s1)
+                       (over_captures (month_body line' data mi) c cps s1').
+Proof.
+  induction cps as [|cp rest IHc]; intros s1 s1' Hs; [cbn; exact Hs|].
+  cbn [over_captures]. unfold month_body at 1 3. destruct (cap_get cp 0) as [[b e]|]; cbn [bind]; [|apply IHc, Hs].
+  unfold add_token. unfold same_infos in Hs. rewrite Hs.
+  destruct (collides (ts_infos s1') b e); cbn [bind]; apply IHc; unfold same_infos; cbn [ts_infos with_ui];
+    [exact Hs|reflexivity].
+Qed.
+
+Theorem month_parser_reads_lowercase (lx : lexdata) (cfg : config F) lang line line' :
+  to_lowercase line = to_lowercase line' ->
+  forall st st', same_infos st st' ->
+  rel_exact same_infos (month_parser lx cfg lang line st) (month_parser lx cfg lang line' st').
+Proof.
+  intros H. unfold month_parser. rewrite H.
+  destruct (assoc lang (lx_months lx)) as [months|]; [|intros; cbn; assumption].
+  induction months as [|[c mi] r IH]; intros st st' Hst; [cbn; exact Hst|].
+  set (data := before_hash (to_lowercase line')) in *.
+  pose proof (month_caps line line' data mi c (caps_iter c data) st st' Hst) as Hc.
+  match goal with |- rel_exact _ (bind ?x _) (bind ?y _) =>
+    change x with (over_captures (month_body line data mi) c (caps_iter c data) st);
+    change y with (over_captures (month_body line' data mi) c (caps_iter c data) st') end.
+  destruct (over_captures (month_body line data mi) c (caps_iter c data) st) as [s1|p1],
+           (over_captures (month_body line' data mi) c (caps_iter c data) st') as [s1'|p1'];
+    cbn in Hc; try contradiction; cbn [bind]; [apply IH, Hc|exact Hc].
+Qed.
+
+Lemma timezone_caps (cfg : config F) line line' data c cps : forall s1 s1', same_infos s1 s1' ->
+  rel_exact same_infos (over_captures (timezone_body cfg line data) c cps s1)
+                       (over_captures (timezone_body cfg line' data) c cps s1').
+Proof.
+  induction cps as [|cp rest IHc]; intros s1 s1' Hs; [cbn; exact Hs|].
+  cbn [over_captures]. unfold timezone_body at 1 3.
+  destruct (parse_timezone cfg c data cp) as [[tz off]|]; [|cbn [bind]; apply IHc, Hs].
+  destruct (cap_get cp 0) as [[b e]|]; cbn [bind]; [|apply IHc, Hs].
+  unfold add_token. unfold same_infos in Hs. rewrite Hs.
+  destruct (collides (ts_infos s1') b e); cbn [bind]; apply IHc; unfold same_infos; cbn [ts_infos with_ui];
+    [exact Hs|reflexivity].
+Qed.
+
+Theorem timezone_parser_reads_uppercase today (cfg : config F) lang line line' regexes :
+  to_uppercase line = to_uppercase line' ->
+  forall st st', same_infos st st' ->
+  rel_exact same_infos (run_parser today cfg lang line (s "timezone") regexes st)
+                       (run_parser today cfg lang line' (s "timezone") regexes st').
+Proof.
+  intros H. unfold run_parser.
+  change (str_is (s "timezone") "comment") with false. change (str_is (s "timezone") "field") with false.
+  change (str_is (s "timezone") "money") with false. change (str_is (s "timezone") "atom") with false.
+  change (str_is (s "timezone") "percent") with false. change (str_is (s "timezone") "timezone") with true.
+  cbv iota. rewrite H. set (data := to_uppercase line').
+  induction regexes as [|c r IH]; intros st st' Hst; [cbn; exact Hst|].
+  cbn [over_regexes].
+  pose proof (timezone_caps cfg line line' data c (caps_iter c data) st st' Hst) as Hc.
+  destruct (over_captures (timezone_body cfg line data) c (caps_iter c data) st) as [s1|p1],
+           (over_captures (timezone_body cfg line' data) c (caps_iter c data) st') as [s1'|p1'];
+    cbn in Hc; try contradiction; cbn [bind]; [apply IH, Hc|exact Hc].
+Qed.
+
+End CaseCompare.
+
+
+(* ------------------------------------------------------------------------------------- *)
+(* 3. + 5. through the whole model at binary64 (Run64.exec64, the loaded default config)   *)
+(* ------------------------------------------------------------------------------------- *)
+From Coq Require Import Floats.
+From SC.Model Require Import NumF64 Run64.
+
+(* the clock of the examples: 28 Sep 2026 *)
+Definition CK16 : clock := {| ck_today := 20724; ck_year := 2026 |}.
+
+(* the VALUE of every line of a text: nothing / error message / result (not the printed text, not the highlighting) *)
+Definition values_of (lang : string) (text : str) : option (list (option (str + ast float))) :=
+  match exec64 CK16 default_config (s lang) text with
+  | Ok r => Some (map (option_map (fun o => match lo_result o with LErr m => inl m | LOk _ v => inr v end)) (er_lines r))
+  | Panic _ => None
+  end.
+Definition values (lang text : string) := values_of lang (s text).
+
+Definition is_value (x : option (str + ast float)) : bool :=
+  match x with Some (inr (AItem _)) => true | _ => false end.
+Definition evaluates (lang text : string) : bool :=
+  match values lang text with Some ls => forallb is_value ls | None => false end.
+
+(* every rewriting gives the values of the original, and the original evaluates to a value on every line *)
+Fixpoint agree (lang orig : string) (rewritten : list string) : Prop :=
+  match rewritten with
+  | [] => evaluates lang orig = true
+  | v :: r => values lang v = values lang orig /\ agree lang orig r
+  end.
+
+Ltac agree_tac := cbn [agree]; repeat split; vm_compute; reflexivity.
+
+(* blank-only lines, every length from 1 to 80; the slot is empty (and the whole text gives exactly one slot) *)
+Definition blank_only_upto (n : nat) : bool :=
+  forallb (fun k => match values_of "en" (repeat 32%N k) with Some [None] => true | _ => false end) (seq 1 n).
+
+Example blank_only_80 : blank_only_upto 80 = true.
+Proof. vm_compute. reflexivity. Qed.
+
+(* comment-only lines: 0-3 blanks, '#', a comment text, for en and tr *)
+Definition COMMENT_TEXTS : list string :=
+  [""; " "; " note"; "march 2020"; " jan"; "5 + 3"; "* 2"; " 10 usd to try"; "to hex"; " # again"; "#"; "x = 9"; "50%";
+   " est"; "12:30 pm"; "today"; " 2 hours"; "("; ")"; "= 1"; "$5"; "- 1"; "/ 0"; "of what"; "[NUMBER:3]"; "{NUMBER:n}";
+   "1k"; "0x10"; "GMT+3"; " mart"; "kere 2"; "   "]%string.
+
+Definition comment_only_all : bool :=
+  forallb (fun lang =>
+    forallb (fun c =>
+      forallb (fun k => match values_of lang (repeat 32%N k ++ 35%N :: s c) with Some [None] => true | _ => false end)
+              [0; 1; 3]%nat) COMMENT_TEXTS) ["en"; "tr"]%string.
+
+Example comment_only_family : comment_only_all = true.
+Proof. vm_compute. reflexivity. Qed.
+
+(* blank and comment lines between evaluable lines: empty slots, the other values unchanged *)
+Example noise_between :
+  values "en" "v = 7
+   
+# v = 9
+v * 3
+  # march
+v + 1" = Some [Some (inr (AItem (INumber 7%float Decimal))); None; None; Some (inr (AItem (INumber 21%float Decimal))); None;
+               Some (inr (AItem (INumber 8%float Decimal)))].
+Proof. vm_compute. reflexivity. Qed.
+
+(* ---- original vs rewritten lines, per feature area and rewriting kind ---- *)
+Local Open Scope string_scope.
+Example pipeline_arith :
+  agree "en" "3 + 4 * 2" ["3  +   4 *  2"; "  3 + 4 * 2   "; "3 + 4 * 2 # 5 + 3"; "3 + 4 * 2# march 2020"; "3+4*2";
+                          " 3+4 *2  #  x = 9"] /\
+  agree "en" "(1 + 2) * 3" ["( 1 + 2 ) * 3"; "(  1+2  )*3"; "(1 + 2) * 3 # )"; "  ( 1 + 2 )   *   3  "] /\
+  agree "en" "2 times 3" ["2 TIMES 3"; "2   Times   3"; "2 times 3 # times"] /\
+  agree "en" "8 / 2 - 1" ["8/2-1"; "8 /2 -1"; "8  /  2  -  1   "; "8 / 2 - 1 #- 1"] /\
+  agree "en" "0x1F + 1" ["0x1F  +  1"; "0x1F+1"; " 0x1F + 1 # 0x10"] /\
+  agree "en" "255 to hex" ["255 TO hex"; "255  To   hex"; "255 to hex # to hex"; "  255 to hex"].
+Proof. repeat split; agree_tac. Qed.
+
+Example pipeline_percent :
+  agree "en" "10% of 50" ["10% OF 50"; "10%   Of  50"; "10% of 50 # 50%"; " 10% of 50 "] /\
+  agree "en" "10% on 50" ["10% ON 50"; "10%  on   50"; "10% on 50#on"] /\
+  agree "en" "10% off 50 usd" ["10% OFF 50 USD"; "10%  oFf  50   Usd"; "10% off 50 usd  # $5"] /\
+  agree "en" "50 + 10%" ["50  +  10%"; "50+10%"; "  50 + 10%  "; "50 + 10% # 1k"] /\
+  agree "en" "10 is what % of 50" ["10 IS WHAT % OF 50"; "10 Is  What  %  oF 50"; "10 is what%of 50"; "10 is what % of 50 # of what"] /\
+  agree "en" "5 is 10% of what" ["5 IS 10% OF WHAT"; "5  is  10%  of  what  "; "5 is 10% of what #what"].
+Proof. repeat split; agree_tac. Qed.
+
+Example pipeline_money :
+  agree "en" "10 usd" ["10 USD"; "10 Usd"; "10    usd"; " 10 usd # usd"; "10 uSD  "] /\
+  agree "en" "10 dollar" ["10 DOLLAR"; "10 Dollar"; "10   dollar"] /\
+  agree "en" "10 usd to try" ["10 USD TO TRY"; "10 Usd tO tRy"; "10  usd   to  try"; "10 usd to try # 10 usd to try";
+                              "   10 usd to try"; "10 usd to Tl"; "10 usd IN try"] /\
+  agree "en" "10 usd + 5 eur" ["10 USD + 5 EUR"; "10 usd+5 eur"; "10  usd  +  5  euro"; "10 usd + 5 eur #+"] /\
+  agree "en" "$10 + 5%" ["$10  +  5%"; " $10 + 5% "; "$10 + 5% # $5"] /\
+  agree "en" "10 euro as usd" ["10 EURO AS USD"; "10 Euro  As  Usd"; "10 euro as usd # euro"].
+Proof. repeat split; agree_tac. Qed.
+
+Example pipeline_dates :
+  agree "en" "3 march 2020" ["3 MARCH 2020"; "3 March 2020"; "3   mArCh   2020"; "3 march 2020 # march 2020"; "  3 march 2020  ";
+                             "3 march 2020#jan"] /\
+  agree "en" "march 3, 2020" ["MARCH 3, 2020"; "March   3,   2020"; "march 3, 2020 # ,"] /\
+  agree "en" "3/4/2020" ["3 / 4 / 2020"; "3/ 4 /2020"; " 3/4/2020 # /"] /\
+  agree "en" "3 march 2020 + 5 days" ["3 MARCH 2020 + 5 days"; "3  march  2020  +  5  days"; "3 march 2020+5 days";
+                                      "3 march 2020 + 5 days # - 1"] /\
+  agree "en" "3 march 2020 - 2 months" ["3 Mar 2020 - 2 months"; "3 march 2020   -   2 months"; "3 march 2020 - 2 months #jan"] /\
+  agree "en" "1 jan 2020 to 5 feb 2020" ["1 JAN 2020 TO 5 FEB 2020"; "1 Jan 2020   To   5 Feb 2020"; "1 jan 2020 to 5 feb 2020 # to"] /\
+  agree "en" "5 march 2020 at 12:30" ["5 MARCH 2020 AT 12:30"; "5 march 2020   At   12:30"; "5 march 2020 at 12:30 # at"] /\
+  agree "en" "17 jul" ["17 JUL"; "17   Jul"; "17 jul # 2020"; "  17 jul"].
+Proof. repeat split; agree_tac. Qed.
+
+Example pipeline_times :
+  agree "en" "12:30 est" ["12:30 EST"; "12:30 Est"; "12:30    eSt"; "12:30 est # gmt"; " 12:30 est "] /\
+  agree "en" "12:30 EST to GMT" ["12:30 est to gmt"; "12:30 Est TO Gmt"; "12:30  EST   to   GMT"; "12:30 EST to GMT # cet";
+                                 "12:30 EST in GMT"; "12:30 EST As gmt"] /\
+  agree "en" "12:30 gmt+3" ["12:30 GMT+3"; "12:30   Gmt+3"; "12:30 gmt+3 # GMT+3"] /\
+  agree "en" "12:30 to 14:00" ["12:30 TO 14:00"; "12:30   to   14:00"; "12:30 to 14:00 # 12:30 pm"] /\
+  agree "en" "3 pm + 2 hours" ["3 pm  +  2 hours"; "3 pm+2 hours"; "  3 pm + 2 hours  # 3 pm"] /\
+  agree "en" "1600000000 to date" ["1600000000 TO DATE"; "1600000000   To   Date"; "1600000000 to date # date"] /\
+  agree "en" "1600000000 to est" ["1600000000 TO EST"; "1600000000 to Est"; "1600000000  to  est  "] /\
+  agree "en" "12:30 est to unix" ["12:30 EST TO UNIX"; "12:30 est  To  Unix"; "12:30 est to unix # unix"].
+Proof. repeat split; agree_tac. Qed.
+
+Example pipeline_durations_units :
+  agree "en" "1 hour 5 minutes" ["1  hour   5  minutes"; "  1 hour 5 minutes  "; "1 hour 5 minutes # 2 hours"] /\
+  agree "en" "3 days + 1 week" ["3 days  +  1 week"; "3 days+1 week"; "3 days + 1 week #week"] /\
+  agree "en" "2 hours as minutes" ["2 hours AS minutes"; "2 hours   As   minutes"; "2 hours TO minutes"; "2 hours as minutes # as"] /\
+  agree "en" "10 km to m" ["10 km TO m"; "10 km   To   m"; "10  km  to  m"; "10 km to m # cm"; "10 km INTO m"] /\
+  agree "en" "5 kb to mb" ["5 kb TO mb"; "5   kb   to   mb  "; "5 kb to mb#gb"] /\
+  agree "en" "10 km + 5 m" ["10 km  +  5 m"; "10 km+5 m"; " 10 km + 5 m # m"].
+Proof. repeat split; agree_tac. Qed.
+
+Example pipeline_variables :
+  agree "en" "x = 3
+x + 1" ["X = 3
+x + 1"; "x = 3
+X + 1"; "x=3
+x+1"; "  x  =  3  
+  x  +  1  "; "x = 3 # x = 9
+x + 1 # x"] /\
+  agree "en" "my var = 10 usd
+my var to try
+my var + 5%" ["My Var = 10 usd
+my var to try
+MY VAR + 5%"; "my var = 10 USD
+my var TO Try
+my var + 5%"; "my   var   =   10 usd
+my  var  to  try
+my var  +  5%"; "my var = 10 usd # my var
+my var to try # try
+my var + 5% # 5%"] /\
+  agree "en" "price = 12:30 est
+price to gmt" ["PRICE = 12:30 EST
+Price To Gmt"; "price=12:30 est
+  price   to   gmt  # est"] /\
+  agree "en" "d = 3 march 2020
+d + 2 days" ["d = 3 MARCH 2020
+D + 2 days"; "d  =  3  march  2020   # march
+d+2 days"].
+Proof. repeat split; agree_tac. Qed.
+
+Example pipeline_tr :
+  agree "tr" "10 usd try" ["10 USD TRY"; "10   Usd   Try"; "10 usd try # try"] /\
+  agree "tr" "5 mart 2020" ["5 MART 2020"; "5   Mart   2020"; "5 mart 2020 # mart"; "  5 mart 2020 "] /\
+  agree "tr" "5 mart 2020 + 3 hafta" ["5 MART 2020 + 3 hafta"; "5 mart 2020+3 hafta"; "5  mart  2020  +  3  hafta # ay"] /\
+  agree "tr" "3 kere 4" ["3 KERE 4"; "3   Kere   4"; "3 kere 4 # kere"] /\
+  agree "tr" "50 + 10%" ["50+10%"; "  50  +  10%  # 5"].
+Proof. repeat split; agree_tac. Qed.
+
+(* known findings C16-K1 / C16-K2: a sign written directly in front of a digit is read into the literal *)
+Example sign_in_literal_refuted :
+  values "en" "12 jul 1997-1 year" <> values "en" "12 jul 1997 - 1 year" /\
+  evaluates "en" "12 jul 1997-1 year" = true /\ evaluates "en" "12 jul 1997 - 1 year" = true /\
+  values "en" "1600000000+60 to date" <> values "en" "1600000000 + 60 to date" /\
+  evaluates "en" "1600000000+60 to date" = true /\
+  values "en" "5+3 km" <> values "en" "5 + 3 km" /\ evaluates "en" "5+3 km" = true /\
+  (* ... while for the other operand kinds a + (-b) = a - b *)
+  agree "en" "12 jul 1997-5 days" ["12 jul 1997 - 5 days"] /\ agree "en" "10 usd-5 usd" ["10 usd - 5 usd"] /\
+  agree "en" "12:30-2 hours" ["12:30 - 2 hours"] /\ agree "en" "8-2*3" ["8 - 2 * 3"].
+Proof. repeat split; try agree_tac; vm_compute; try reflexivity; discriminate. Qed.
+
+(* what the statement does NOT promise (no finding): words outside the listed classes are compared as written *)
+Example unlisted_classes_case_sensitive :
+  values "en" "1 Hour 5 Minutes" <> values "en" "1 hour 5 minutes" /\
+  values "en" "100 to Hex" <> values "en" "100 to hex" /\
+  values "en" "5 kb to MB" <> values "en" "5 kb to mb" /\
+  values "en" "Today" <> values "en" "today" /\
+  (* a blank inside a literal is not a blank between tokens *)
+  values "en" "3  pm" <> values "en" "3 pm".
+Proof. repeat split; vm_compute; discriminate. Qed.
